@@ -161,23 +161,12 @@ theorem counterexample_version_eq_range_symm :
   have := h (.single (.ver cexV)) (.single (.rng cexHalf)) (by decide)
   revert this; decide
 
-/-- the statement one would like: constraints coming out of the parser hash alike when equal -/
-def parsed_constraint_hash_full_statement : Prop :=
-  ∀ s t a b, VParser.parseConstraint s = .ok a → VParser.parseConstraint t = .ok b →
-    Marker.VC.eqv a b = true → vcHash a = vcHash b
-
-/-- **false of model and code (genuine defect)**: `1.0 || 1.0+local` parses to the degenerate range
-`>=1.0+local,<=1.0+local` (`Version.union` closes the "range" `1.0+local`), which equals the version
-`1.0+local` and hashes differently -/
-theorem counterexample_reachable_degenerate_range : ¬ parsed_constraint_hash_full_statement := by
-  intro h
-  have h1 : VParser.parseConstraint "1.0 || 1.0+local" =
-      .ok (.single (.rng ⟨some (Version.mk' 0 [1, 0] none none none (some ["local"])),
-        some (Version.mk' 0 [1, 0] none none none (some ["local"])), true, true⟩)) := by decide +kernel
-  have h2 : VParser.parseConstraint "1.0+local" =
-      .ok (.single (.ver (Version.mk' 0 [1, 0] none none none (some ["local"])))) := by decide +kernel
-  have := h _ _ _ _ h1 h2 (by decide)
-  simp [vcHash, rcHash, verHash, rangeHash] at this
+/-- regression (repo fix 583640d; was `counterexample_reachable_degenerate_range`): `1.0 || 1.0+local` used to parse to
+the degenerate range `>=1.0+local,<=1.0+local`, equal to the version `1.0+local` with another hash; `Version.union` now
+returns the version that admits the other one -/
+example : VParser.parseConstraint "1.0 || 1.0+local" = .ok (.single (.ver (Version.mk' 0 [1, 0] none none none none))) ∧
+    VParser.parseConstraint "1.0+local || 1.0" = .ok (.single (.ver (Version.mk' 0 [1, 0] none none none none))) := by
+  constructor <;> decide +kernel
 
 /-- re-parsing the text of a constraint, with C15's round trip (`text_roundtrip_full_statement`) for this
 constraint as hypothesis: the re-read constraint is equivalent, and when it is equal it has the same hash input -/
@@ -264,8 +253,7 @@ theorem specification_beq_refl (a : Dep.Spec) : a.beq a = true := spec_beq_refl 
 theorem specification_beq_symm (a b : Dep.Spec) (h : a.beq b = true) : b.beq a = true := spec_beq_symm h
 theorem specification_beq_trans (a b c : Dep.Spec) (hg : refsExact [a, b, c]) (h1 : a.beq b = true)
     (h2 : b.beq c = true) : a.beq c = true := spec_beq_trans hg h1 h2
-theorem specification_beq_hash (a b : Dep.Spec) (ha : specNormal a = true) (hb : specNormal b = true)
-    (h : a.beq b = true) : specHash a = specHash b := specHash_eq ha hb h
+theorem specification_beq_hash (a b : Dep.Spec) (h : a.beq b = true) : specHash a = specHash b := specHash_eq h
 
 theorem dependency_beq_refl (d : Dep.Dep) : d.beq d = true := dep_beq_refl d
 theorem dependency_beq_symm (a b : Dep.Dep) (ha : vcNonDegenerate a.constraint = true)
@@ -275,10 +263,9 @@ theorem dependency_beq_trans (a b c : Dep.Dep) (hg : refsExact [a.spec, b.spec, 
     (hc : vcNonDegenerate c.constraint = true) (h1 : a.beq b = true) (h2 : b.beq c = true) : a.beq c = true :=
   dep_beq_trans hg ha hb hc h1 h2
 /-- `Dependency.__hash__` is the specification's hash -/
-theorem dependency_beq_hash (a b : Dep.Dep) (ha : specNormal a.spec = true) (hb : specNormal b.spec = true)
-    (h : a.beq b = true) : depHash a = depHash b := by
+theorem dependency_beq_hash (a b : Dep.Dep) (h : a.beq b = true) : depHash a = depHash b := by
   simp only [Dep.Dep.beq, Bool.and_eq_true] at h
-  exact specHash_eq ha hb h.1
+  exact specHash_eq h.1
 /-- equal dependencies that are not direct-origin ones carry equal constraints, hence admit the same versions
 (`constraint_beq_interchangeable_partial`) -/
 theorem dependency_beq_interchangeable (a b : Dep.Dep) (h : a.beq b = true) (hd : a.spec.isDirectOrigin = false) :
@@ -286,10 +273,9 @@ theorem dependency_beq_interchangeable (a b : Dep.Dep) (h : a.beq b = true) (hd 
   simp only [Dep.Dep.beq, Bool.and_eq_true, Bool.or_eq_true, vcEq_eq, hd, Bool.false_eq_true, or_false] at h
   exact ⟨((spec_beq_iff _ _).1 h.1).1.symm, h.2⟩
 
-theorem package_beq_hash (a b : Pkg) (ha : specNormal a.spec = true) (hb : specNormal b.spec = true)
-    (h : a.beq b = true) : pkgHash a = pkgHash b := by
+theorem package_beq_hash (a b : Pkg) (h : a.beq b = true) : pkgHash a = pkgHash b := by
   simp only [Pkg.beq, Bool.and_eq_true] at h
-  simp [pkgHash, specHash_eq ha hb h.1, (version_beq_hash _ _).1 h.2]
+  simp [pkgHash, specHash_eq h.1, (version_beq_hash _ _).1 h.2]
 
 def gitSpec (ref : String) (resolved : Option String) : Dep.Spec :=
   { prettyName := "foo", name := "foo", sourceType := some "git", sourceUrl := some "https://github.com/a/b.git",
@@ -324,16 +310,13 @@ theorem counterexample_resolved_reference :
     (by decide) (by decide)
   revert this; decide
 
-/-- **hash coherence fails for a falsy-but-not-None field (genuine defect, reachable through
-`foo @ https://example.com/a.zip#subdirectory=`)**: `''` and `None` compare as the same sub-directory and hash
-differently -/
-theorem counterexample_empty_subdirectory :
-    ¬ (∀ a b : Dep.Spec, a.beq b = true → specHash a = specHash b) := by
-  intro h
-  let u : Option String → Dep.Spec := fun d =>
-    { prettyName := "foo", name := "foo", sourceType := some "url", sourceUrl := some "https://example.com/a.zip",
-      sourceReference := none, sourceResolvedReference := none, sourceSubdirectory := d, features := [] }
-  have := h (u (some "")) (u none) (by decide)
-  simp [specHash, u, Dep.truthy, optStrHash] at this
+def urlSpec (d : Option String) : Dep.Spec :=
+  { prettyName := "foo", name := "foo", sourceType := some "url", sourceUrl := some "https://example.com/a.zip",
+    sourceReference := none, sourceResolvedReference := none, sourceSubdirectory := d, features := [] }
+
+/-- regression (repo fix 34fbb11; was `counterexample_empty_subdirectory`): `foo @ https://example.com/a.zip#subdirectory=`
+(sub-directory `''`) equals the same URL without fragment (`None`) — and now has the same hash input -/
+example : (urlSpec (some "")).beq (urlSpec none) = true ∧ specHash (urlSpec (some "")) = specHash (urlSpec none) ∧
+    urlSpec (some "") ≠ urlSpec none := ⟨by decide, specHash_eq (by decide), by decide⟩
 
 end Poetry.C18
